@@ -1271,6 +1271,111 @@ def gen_server_conn(ctx, rng, n, quick):
     return cases
 
 
+def upgrade_request(rng, i):
+    """a valid request that carries an Upgrade field (varied spelling / position) + its handler event (the plain HttpServer
+    declines every upgrade and dispatches the request like any other)"""
+    name = rng.choice([b"Upgrade", b"upgrade", b"UPGRADE", b"UpGrade"])
+    fields = [(b"Host", b"a"), (b"X-A", b"1")]
+    fields.insert(rng.below(3), (name, rng.choice([b"websocket", b"h2c", b"", b"a, b"])))
+    if rng.chance(1, 2):
+        fields.append((b"Sec-WebSocket-Key", b"dGhlIHNhbXBsZSBub25jZQ=="))
+    path = b"/ws%d" % i
+    body = b"" if rng.chance(2, 3) else b"hello"
+    if body:
+        fields.append((b"Content-Length", b"5"))
+    pad = rng.choice([b": ", b":", b":\t "])
+    wire = b"GET " + path + b" HTTP/1.1\r\n" + b"".join(k + pad + v + b"\r\n" for k, v in fields) + b"\r\n" + body
+    return wire, rev(0, path, fields, body)
+
+
+def gen_server_upgrade(ctx, rng, n, quick):
+    """FC18f: what follows an Upgrade request is not framed as HTTP.  Pipelines of valid requests with ONE request that carries an
+    Upgrade field, followed by more requests (or by WebSocket-looking bytes that contain CR LF CR LF) in the same read and in
+    later reads; delivered whole, cut at random, with the worker free (the hold is released before the next read) or parked
+    (`sv hold` ... `sv release`: every read behind the Upgrade request is only queued), with the buffer overflowing during the
+    hold, and with the close callback landing during the hold.  For the all-valid streams the generator computes every answer
+    line itself (request loop that stops behind the Upgrade request; held reads only grow the buffer)."""
+    cases = []
+    for i in range(n):
+        npre, npost = rng.choice([0, 1, 2]), rng.choice([0, 1, 2, 3])
+        reqs = [plain_request(rng.choice([0, 1]), b"/p%d" % k, b"xy" if rng.chance(1, 3) else b"", "cl") for k in range(npre)]
+        reqs = [(w, e) for (w, e) in reqs]
+        up = upgrade_request(rng, i)
+        reqs.append(up)
+        ui = npre
+        reqs += [plain_request(0, b"/q%d" % k) for k in range(npost)]
+        junk = rng.choice([b"", b"", b"\x81\x05a\r\n\r\nb", b"\x82\x7e\x01\x00" + rng.bytes(40)]) if npost == 0 else b""
+        stream = b"".join(r[0] for r in reqs) + junk
+        ends, acc = [], 0
+        for r in reqs:
+            acc += len(r[0])
+            ends.append(acc)
+        for variant in range(3):
+            if variant == 0:
+                segs = [stream]
+            else:
+                cs = sorted(set(rng.below(len(stream) + 1) for _ in range(rng.range(1, 5))))
+                segs = [stream[a:b] for a, b in zip([0] + cs, cs + [len(stream)])]
+            held = rng.chance(1, 2)
+            ops, want = ["sv reset"], ["ok"]
+            if held:
+                ops.append("sv hold 5000")
+                want.append("ok")
+            # reference run
+            acc, k, pos, hold, queued = 0, 0, 0, False, []
+            for sg in segs + ([b""] if not junk else []):
+                acc += len(sg)
+                evs = []
+                if not hold:
+                    while k < len(reqs) and acc >= ends[k]:
+                        evs += [reqs[k][1], "S:200"]
+                        pos = ends[k]
+                        k += 1
+                        if k - 1 == ui:
+                            hold = True
+                            break
+                ops.append("sv data " + hexs(sg))
+                if held:
+                    queued += evs
+                    want.append("- | io=- | buf=%d alive=1" % (acc - pos))
+                else:
+                    hold = False                       # the worker has left processHttpRequest before the next read
+                    want.append("%s | io=- | buf=%d alive=1" % (",".join(evs) if evs else "-", acc - pos))
+            full = not junk
+            if held:
+                ops.append("sv release")
+                want.append("%s | io=- | buf=%d alive=1" % (",".join(queued) if queued else "-", acc - pos))
+                hold = False
+                if full:
+                    evs = []
+                    while k < len(reqs) and acc >= ends[k]:
+                        evs += [reqs[k][1], "S:200"]
+                        pos = ends[k]
+                        k += 1
+                    ops.append("sv data -")
+                    want.append("%s | io=- | buf=%d alive=1" % (",".join(evs) if evs else "-", acc - pos))
+            cases.append({"cat": "server-upgrade", "ops": ops, "blocks": [(0, len(ops), want if full else None)], "full_lines": full, "independent_blocks": True,
+                          "upgrade_ev": up[1], "encoded": [r[1] for r in reqs], "nseg": 1, "stream_len": len(stream)})
+    # the hold is bounded: overflow during the hold, and the close callback landing during the hold
+    up = upgrade_request(rng, 9999)
+    g = plain_request(0, b"/after")
+    ops = ["sv reset", "sv hold 5000", "sv data " + hexs(up[0] + g[0]), "sv data {78*1000000}", "sv data {79*%d}" % (1048576 - 1000000 - len(g[0])), "sv data 7a", "sv data " + hexs(g[0]),
+           "sv release", "sv data " + hexs(g[0])]
+    want = ["ok", "ok", "- | io=- | buf=%d alive=1" % len(g[0]), "- | io=- | buf=%d alive=1" % (len(g[0]) + 1000000), "- | io=- | buf=1048576 alive=1", "- | io=X | buf=0 alive=0",
+            "- | io=- | buf=0 alive=0", "%s,S:200 | io=- | buf=0 alive=0" % up[1], "- | io=- | buf=0 alive=0"]
+    cases.append({"cat": "server-upgrade", "name": "hold-overflow", "ops": [expand_op(o) for o in ops], "blocks": [(0, len(ops), want)], "full_lines": True, "independent_blocks": True,
+                  "upgrade_ev": up[1], "encoded": [up[1], g[1]], "nseg": 1, "stream_len": 1048577})
+    ops = ["sv reset", "sv hold 5000", "sv data " + hexs(up[0] + g[0]), "sv closed", "sv data " + hexs(g[0]), "sv release", "sv data " + hexs(g[0])]
+    want = ["ok", "ok", "- | io=- | buf=%d alive=1" % len(g[0]), "ok", "- | io=- | buf=0 alive=0", "%s,S:200 | io=- | buf=0 alive=0" % up[1], "- | io=- | buf=0 alive=0"]
+    cases.append({"cat": "server-upgrade", "name": "closed-during-hold", "ops": ops, "blocks": [(0, len(ops), want)], "full_lines": True, "independent_blocks": True,
+                  "upgrade_ev": up[1], "encoded": [up[1], g[1]], "nseg": 1, "stream_len": 0})
+    ops = ["sv reset", "sv hold 0", "sv data " + hexs(up[0] + g[0]), "sv data " + hexs(g[0]), "sv release"]
+    want = ["ok", "ok", "- | io=S:503,X | buf=0 alive=0", "- | io=- | buf=0 alive=0", "- | io=- | buf=0 alive=0"]
+    cases.append({"cat": "server-upgrade", "name": "upgrade-refused-503", "ops": ops, "blocks": [(0, len(ops), want)], "full_lines": True, "independent_blocks": True,
+                  "upgrade_ev": up[1], "encoded": [up[1], g[1]], "nseg": 1, "stream_len": 0})
+    return cases
+
+
 def gen_client_reach(ctx, rng, quick):
     """Client shapes never reached: 17-120 field lines before the framing field, a header block above the 8192-byte read
     size, HTTP/1.2 (rejected: the client speaks 1.0/1.1 only), a Transfer-Encoding spread over several field lines whose last
@@ -1461,6 +1566,18 @@ def monitor_case(c, impl):
                 if "alive=1" in l:
                     bad.append("S8: op %d: the I/O thread closed the connection but the session lives on (a later read is appended behind a buffer that lacks the dropped bytes): `%s`" % (i, l[:160]))
                     break
+        if cat == "server-upgrade":
+            # FC18f: in ONE pass nothing is dispatched behind an Upgrade request, and the handler sees a prefix of the encoded pipeline
+            for i, l in enumerate(impl):
+                if " | io=" in l and c["ops"][i].startswith("sv data"):
+                    evs = [e for e in l.split(" | ")[0].split(",") if e.startswith("R/")]
+                    if c["upgrade_ev"] in evs and evs.index(c["upgrade_ev"]) != len(evs) - 1:
+                        bad.append("S10: op %d: a request was dispatched from bytes BEHIND an Upgrade request in the same read (they belong to the protocol being switched to): `%s`" % (i, l[:200]))
+                        break
+            evs = [e for e in server_events(impl) if e.startswith("R/")]
+            if evs[:len(c["encoded"])] != c["encoded"][:len(evs)]:
+                bad.append("S10: requests handed to the application are not a prefix of the encoded pipeline around an Upgrade request: got %d event(s), first difference at %d"
+                           % (len(evs), next((j for j, (x, y) in enumerate(zip(evs, c["encoded"])) if x != y), min(len(evs), len(c["encoded"])))))
         if cat == "server-conn":
             # whatever the pool / the workers / the close callback do: the handler sees a PREFIX of the encoded pipeline
             evs = [e for e in server_events(impl) if e.startswith("R/")]
@@ -1606,6 +1723,18 @@ OBLIGATIONS = [
      "statement": "server: handled events ++ still-queued requests = processHttpRequest of the accepted requests in acceptance order (each once)"},
     {"id": "C15_S9c", "theorem": "Iora.C15.S9_no_refusal", "kind": "proved",
      "statement": "server: with enough free slots nothing is refused and the session is exactly the I/O thread's"},
+    {"id": "C15_S8U", "theorem": "Iora.C15.S8U_extraction_is_greedy_chain", "kind": "proved",
+     "statement": "server as it is since FC18f (upgrade hold): for EVERY interleaving of reads, pool answers, worker runs, close callbacks and upgrade holds, the extracted requests are a greedy chain of the concatenated input from offset 0 (each request is what the extractor yields right behind the previous one); unframed bytes are a suffix"},
+    {"id": "C15_U1", "theorem": "Iora.C15.U1_hold_extracts_nothing", "kind": "proved",
+     "statement": "server: while an Upgrade request of the session is being processed (_upgradePending) a read is never scanned: nothing extracted"},
+    {"id": "C15_U1b", "theorem": "Iora.C15.U1_hold_appends_or_rejects", "kind": "proved",
+     "statement": "server: a held read is appended in arrival order, or - above MAX_BUFFER_SIZE - dropped with the session forgotten and closed"},
+    {"id": "C15_U2", "theorem": "Iora.C15.U2_pass_stops_behind_upgrade", "kind": "proved",
+     "statement": "server: a pass whose front request carries an Upgrade field extracts exactly that request and leaves everything behind it unscanned"},
+    {"id": "C15_U0", "theorem": "Iora.C15.U0_pass_without_upgrade_is_http_only", "kind": "proved",
+     "statement": "server: a pass without hold that does not stop behind an Upgrade request is exactly ioStep, the function S1-S9 are about"},
+    {"id": "C15_gen_up", "theorem": "Iora.C15.gen_upgrade_hold", "kind": "proved",
+     "statement": "Gen conformance: the _upgradePending/haveUpgrade statements of handleIncomingData, the `break` behind an Upgrade request and the erasures of handleSessionClosed are the ones connDataU/connClosedU were written from"},
     {"id": "C15_gen_close", "theorem": "Iora.C15.gen_io_close", "kind": "proved",
      "statement": "Gen conformance: every close of handleIncomingData goes through rejectSession, which erases the session under _sessionMutex before closeSession (FC15b)"},
     {"id": "C15_gen_fold", "theorem": "Iora.C15.gen_case_fold", "kind": "proved",
@@ -1651,6 +1780,7 @@ def gen_all(ctx, quick, scale):
     cases += gen_server_gap(ctx, rng.fork("sg"), quick)
     cases += gen_server_conn(ctx, rng.fork("so"), 120 * scale, quick)
     cases += gen_client_reach(ctx, rng.fork("cr"), quick)
+    cases += gen_server_upgrade(ctx, rng.fork("su"), 60 * scale, quick)
     return cases
 
 
@@ -1774,8 +1904,11 @@ def run(ctx: Ctx):
         "HEAD/204/304 with arbitrary fields is F1_exact_nobody",
         "server: error statuses of malformed requests (400/414/501/505) are modelled, lockstep-checked and (server-reach family) compared with generator-side expectations, "
         "not characterised by theorems beyond S6c (response formation is C16)",
-        "server paths still outside the model: sessions upgraded to WebSocket (C18; processHttpRequest moves the buffer), the `_shutdown` branch of processHttpRequest / closeSession "
-        "during shutdown (S8a holds there too since rejectSession erases before it asks for the close, but no op drives it)",
+        "server: the upgrade hold of FC18f is inside the model (connDataU: hold branch, break behind an Upgrade request, release by the worker, handleSessionClosed) and S8U/U0-U2 are about the function "
+        "as it is; S1/S2/S1K/S9 are stated for the HTTP-only function (ioStep/srvFeed), which U0 proves equal for every pass that does not stop behind an Upgrade request - that a pipeline of reference "
+        "requests WITHOUT an Upgrade field never stops there (hasUpgrade = false from the field names) is not yet a lemma (generator + lockstep: no generated valid request carries Upgrade outside the server-upgrade family)",
+        "server paths still outside the model: an ACCEPTED upgrade (WebSocketServer: 101, drain loop to onUpgradedData, reads routed to the upgraded protocol - C18; the plain HttpServer of the harness declines every upgrade), "
+        "the `_shutdown` branch of processHttpRequest / closeSession during shutdown (S8a holds there too since rejectSession erases before it asks for the close, but no op drives it)",
         "server S9 models the pool as `how many more tryEnqueue calls succeed` and one FIFO worker (the harness parks all workers but one); handlers running concurrently on several workers are C16",
         "req.params: modelled (queryParams), lockstep-checked against an independent Python reading for every generated target; no theorem beyond the examples and the Gen pin",
         "client F2 is stated for streams that fit the cap (no prefix trips the cap check); with interim 1xx responses and a total above the cap the cap check is segmentation-dependent by design (erased interims no longer count)",
@@ -1786,8 +1919,8 @@ def run(ctx: Ctx):
                         "server: requests are dispatched to a pool of which all workers but one are parked, so handlers run in dispatch order (response ordering is C16); `sv hold k` parks the last worker too and "
                         "fills the real task queue so that exactly k more tryEnqueue calls succeed (queue capacity from Gen, 1024), `sv release` lets the queued requests run",
                         "the scripted engine records close()/send calls and runs send completions synchronously, as TcpEngine::sendAsync does; it has no close callback of its own: the harness never erases the "
-                        "session behind the server's back - the engine's close callback lands only where the script says `sv closed` (the body of HttpServer::start()'s onClose lambda is replicated there: "
-                        "erase from _sessionInfo and _upgradedSessions under _sessionMutex)",
+                        "session behind the server's back - the engine's close callback lands only where the script says `sv closed`, which calls the REAL member HttpServer::handleSessionClosed(sid) "
+                        "(what start() wires to Transport::onClose)",
                         "MAX_BODY_SIZE (10 MiB) is unreachable behind MAX_BUFFER_SIZE (1 MiB): the effective per-request cap is the buffer cap; a request above it is closed, never mis-framed "
                         "(judged a configuration inconsistency, not a C15 violation: the statement bounds buffering by the configured caps and quantifies bodies up to the cap)"]
     return ctx.finish(level="proof", rule="a case = one generated byte stream fed to the real framing code under a family of segmentations (whole, every single cut or a sample of cuts, "
